@@ -47,6 +47,25 @@ pub fn sessions(tier: Tier) -> Vec<Sess> {
         ];
         v.push(Sess { name: "minimal", bytes: msgs.iter().flat_map(frame).collect() });
     }
+    // frames with the optional Content-Type header, in both orders (splits inside a long header part)
+    {
+        let msgs = vec![
+            request(1, "initialize", json!({"capabilities": {}})),
+            notification("initialized", Value::Null),
+            request(2, "x/unknown", json!({"k": "\u{e9}"})),
+            request(3, "shutdown", Value::Null),
+            notification("exit", Value::Null),
+        ];
+        let mut bytes = vec![];
+        for (i, m) in msgs.iter().enumerate() {
+            let body = serde_json::to_string(m).unwrap();
+            let ct = "Content-Type: application/vscode-jsonrpc; charset=utf-8";
+            let head = if i % 2 == 0 { format!("Content-Length: {}\r\n{}\r\n\r\n", body.len(), ct) } else { format!("{}\r\nContent-Length: {}\r\n\r\n", ct, body.len()) };
+            bytes.extend_from_slice(head.as_bytes());
+            bytes.extend_from_slice(body.as_bytes());
+        }
+        v.push(Sess { name: "content-type-header", bytes });
+    }
     v.push(session_of("ascii", "proc main() {\n  var i: int;\n  i := 1;\n}\n", &[("textDocument/hover", pos(2, 2))]));
     // non-ASCII text: multi-byte characters in comments, an unknown character that is quoted
     // in a diagnostic, so that the server's own frames carry non-ASCII bodies
